@@ -8,5 +8,7 @@ PROP = dict(
          'non-last key, or reads a parameter with a type other than the stored one; distinct by hash of the op list',
     floor=dict(quick=500, thorough=5000),
     assumptions=TRUST,
-    bins=[rc('C10_flatmap', 'harness/C10_flatmap.cpp', 'tbb-asan')],
+    bins=[dict(name='C10_plugin.so', src='harness/C10_plugin.cpp', cfg=None, kind='aux', flags='-shared -fPIC'),
+          rc('C10_flatmap', 'harness/C10_flatmap.cpp', 'tbb-asan')],
 )
+PROP['rule'] += ' Round-4 extension: parameter values of types defined in both images cross a module boundary (C10_plugin.so, loaded with dlopen RTLD_LOCAL): set by the host and asked for by the module and vice versa, exact-type semantics on both sides.'
